@@ -53,8 +53,8 @@ def _vm_store(t):
         return "(@nil entry)"
     out = []
     for e in es:
-        mt, dg, sz = e.split(":")
-        out.append("(mkEntry %s %s (%s)%%Z [])" % (_vm_str(mt), _vm_str(dg), sz))
+        f = e.split(":")
+        out.append("(mkEntry %s %s (%s)%%Z [] %s)" % (_vm_str(f[0]), _vm_str(f[1]), f[2], "true" if len(f) > 3 else "false"))
     return "[" + "; ".join(out) + "]"
 
 
@@ -128,7 +128,7 @@ def _vm_goal(case, out):
     if p[0] != "K":
         return None
     fn = {"v10": "FV10", "v11": "FV11", "vbad": "FBadVersion", "rc2": "FRC2", "art": "FArtifact"}[p[1]]
-    key = {"0": "KFull", "1": "KDigest", "2": "KNamespace"}[p[3]]
+    key = {"0": "KFull", "1": "KDigest", "2": "KNamespace", "3": "KFile"}[p[3]]
     fa = "(@None nat)" if p[4] == "-" else "(Some %s%%nat)" % p[4]
     call = ("(pack vm_marshal vm_h %s (mkTcfg %s %s) %s (init_state %s) %s (mkOpts %s %s %s %s %s) vm_now)"
             % (fn, "true" if p[2] == "1" else "false", key, fa, _vm_store(p[11]), _vm_str(p[5]), _vm_odesc(p[6]),
@@ -206,7 +206,7 @@ CONFIG = {
         "the digest function is a parameter H with the single hypothesis H \"{}\" = sha256:44136f...; collision-freeness of H is an explicit premise of the clauses that conclude equality of stored bytes",
         "the validation of a caller-supplied created value (time.Parse(time.RFC3339, _) followed by the explicit strict checks added by the fix of finding created-lenient) is modelled by the recogniser rfc3339_ok, proved equal to the RFC 3339 section 5.6 grammar with upper-case T/Z and no leap second; every disagreement with the real code (observed through PackManifest, go1.26.8 time package) is a correspondence failure; time.Now().UTC().Format(RFC3339) is the parameter `now` (the harness checks the generated value parses and lies within the call)",
         "Go regexp semantics for the ASCII-only, fully anchored mediaTypeRegexp = Base/Regex.v Lang (proved equal to the derivative matcher)",
-        "the target is modelled as a content store keyed by digest (OCI layout), by media type+digest+size (memory, file-store fallback) or by digest within the manifest/blob namespace (registry), optionally implementing Exists, possibly pre-filled, with at most one injected failing storage operation; stores verify pushed content, which the model omits because every push of Pack is proved content-consistent (C19_store_stays_content_addressed)",
+        "the target is modelled as a content store keyed by digest (OCI layout), by media type+digest+size (memory), by digest within the manifest/blob namespace (registry) or as a file store (named files answer Exists by digest, unnamed content lives in the full-key fallback; descriptors Pack itself pushes carry no title annotation), optionally implementing Exists, possibly pre-filled, with at most one injected failing storage operation; stores verify pushed content, which the model omits because every push of Pack is proved content-consistent (C19_store_stays_content_addressed)",
         "constants of image-spec v1.1.1 (media types, annotation key, DescriptorEmptyJSON) are hand-written in the model and tied by the correspondence run; the oras-go constants and mediaTypeRegexp are regenerated from pack.go / internal/spec/artifact.go",
         "a config blob whose caller-chosen media type is itself a manifest media type (artifactType = application/vnd.oci.image.manifest.v1+json under v1.0 / Pack) is present in the target but is walked as a manifest by CopyGraph; the copy oracle does not judge such calls (caller inconsistency); the registry target is a minimal in-process distribution endpoint (no manifest validation, referrers API reported as supported)",
     ],
